@@ -19,7 +19,7 @@ def _configs(tier):
     out = []
     profs = [(["SandyLoam"] * 4, [0.1] * 4), (["Clay", "Clay", "Sand", "Sand"], [0.1] * 4)]
     if tier != "quick":
-        profs += [(["Sand"] * 4, [0.1] * 4), (["Paddy"] * 4, [0.05, 0.15, 0.1, 0.2]), (["SiltLoam"] * 4, [0.1] * 4), (["PaddyTop", "PaddyPan", "PaddyPan", "PaddyPan"], [0.1] * 4)]
+        profs += [(["Sand"] * 4, [0.1] * 4), (["Paddy"] * 4, [0.05, 0.15, 0.1, 0.2])]
     # partitions: 'extraction' = potential-evaporation section straight-line (fallow: EsPot = Kex*et0, et0 from 0 so that EsPot
     # sweeps [0, 22] mm), every extraction input symbolic; 'potential' = every input of the potential-evaporation section
     # symbolic, extraction state restricted (no ponding, no readily evaporable water left: stage 2 only)
@@ -50,6 +50,8 @@ def _configs(tier):
                     if r["reinit"] and evz != 0.15:
                         continue
                     if tier == "quick" and r["part"] == "potential" and (evz != 0.15 or layers[0] != "SandyLoam"):
+                        continue
+                    if r["part"] == "full" and (layers[0] != "SandyLoam" or evz != 0.237):
                         continue
                     out.append((f"{'/'.join(layers)}|{dzs}|{r['name']}|CCx={r['ccx']}|substeps={k}|evz={evz}", dict(layers=layers, dzs=dzs, k=k, evz=evz, **r)))
     return out
